@@ -172,6 +172,28 @@ where
             }
         }
     }
+    // bounded targets (edges coinciding with / cutting through the image, only its first row and
+    // column visible): a draw_iter-only target, and a native target that skips the colours of the
+    // invisible points in bulk with Iterator::nth instead of pulling them one by one
+    if let Some(boxes) = egmon::target::cut_boxes(want_unb) {
+        ctx.eval();
+        let bx = boxes[(want_unb.hash() / 13 % 5) as usize];
+        let want_in = egmon::target::restrict(want_unb, &bx);
+        let mut ib = IterTarget::<C>::new(bx);
+        let mut sb = NativeTarget::<C>::new(bx);
+        sb.log_mut().skip_invisible_with_nth = true;
+        let _ = d.draw(&mut ib);
+        let _ = d.draw(&mut sb);
+        for (tk, log) in [("draw_iter-only", ib.log()), ("native, skipping with nth", sb.log())] {
+            if !log.map.same(&want_in) {
+                ctx.violation(format!("{}|{}|bounded-map{}", tname, what, if tk.starts_with("native") { "-skipping-with-nth" } else { "" }), || format!("{} on target box {:?}", case(), egmon::target::rt(&bx)), || {
+                    format!("{} target differs at {:?} (x, y, drawn, expected)\ndrawn:\n{}expected:\n{}", tk, log.map.first_diff(&want_in), log.map.ascii(24), want_in.ascii(24))
+                });
+                break;
+            }
+        }
+        ctx.count("bounded_target_draws", 2);
+    }
     ctx.distinct("pixel_maps", it.log().map.hash());
 }
 
